@@ -141,11 +141,11 @@ def run(tier="quick", seed=0, pid="C01"):
     rng = np.random.default_rng(seed)
     specs = list(SPECS)
     if thorough:
-        for _ in range(40):
+        for _ in range(120):
             specs.append({"alt": float(rng.choice([5.0, 33.0, 400.0, 525.0, 2000.0, 36000.0])), "limb_frac": float(rng.uniform(0.01, 0.95)),
                           "cone_deg": float(rng.choice([0.5, 3.0, 30.0, 80.0])), "az_deg": float(rng.choice([10.0, 180.0, 360.0])),
                           "dlat": float(np.arcsin(rng.uniform(-1, 1))), "dlon": float(rng.uniform(-np.pi, 2 * np.pi))})
-    jobs = [{"t": "ev", "seed": seed * 50 + i, "specs": specs[i::12], "n": 2500 if thorough else 700} for i in range(12) if specs[i::12]]
+    jobs = [{"t": "ev", "seed": seed * 50 + i, "specs": specs[i::12], "n": 4000 if thorough else 700} for i in range(12) if specs[i::12]]
     qspecs = SPECS
     for s in qspecs:
         jobs.append({"t": "quad", "spec": s, "n4": 262144 if thorough else 65536, "k": 32 if thorough else 16, "seed": seed + 1,
